@@ -167,6 +167,13 @@ def cases(tier, seed):
                 yield {'ep': 'ctor_cores', 'd': d, 'pos': pos, 'how': how}
         for how in ('R_short', 'R_long', 'R_first', 'R_last'):
             yield {'ep': 'random', 'd': d, 'how': how}
+    # ---- operator indexing with a wrong number of indices
+    for d in (1, 2, 3):
+        M, N = OM[:d], ON[:d]
+        for how in ('odd_len', 'one_pair_more', 'one_pair_less', 'mixed_pair', 'oob_row', 'oob_col'):
+            if how == 'one_pair_less' and d == 1:
+                continue
+            yield {'ep': 'getitem_ttm', 'M': M, 'N': N, 'how': how}
     # ---- operator reshape: same total element count, different row / column split
     for (M, N) in (([2, 4], [3, 5]), ([2, 2], [3, 3]), ([6], [4])):
         tot = int(np.prod(M)) * int(np.prod(N))
@@ -564,6 +571,32 @@ def _ep_reshape(c, key):
     N, shp = c['N'], c['shape']
     a, ca = _t(N)
     return judge(key, 'reshape.numel', lambda: torchtt.reshape(a, shp), [a], must=True, doc=True)
+
+
+def _ep_getitem_ttm(c, key):
+    M, N, how = c['M'], c['N'], c['how']
+    d = len(N)
+    A, cA = _m(M, N)
+    dA = ref.contract(cA)
+    if how == 'odd_len':
+        index = tuple([0] * (2 * d + 1))
+    elif how == 'one_pair_more':
+        index = tuple([0] * (2 * d + 2))
+    elif how == 'one_pair_less':
+        index = tuple([0] * (2 * d - 2))
+    elif how == 'mixed_pair':
+        index = tuple([0] * d + [slice(None)] * d)            # (int, slice) pairs: documented as invalid
+    elif how == 'oob_row':
+        index = tuple([M[0]] + [0] * (2 * d - 1))
+    else:
+        index = tuple([0] * d + [N[0]] + [0] * (d - 1))
+    raises, dense = _dense_raises(lambda: dA[index])
+    site = 'getitem.operator.' + how
+    if how == 'mixed_pair':
+        return judge(key, site, lambda: A[index], [A], must=True, doc=True)
+    if raises:
+        return judge(key, site, lambda: A[index], [A], must=True, doc=how in ('odd_len', 'one_pair_more'))
+    return judge(key, site, lambda: A[index], [A], must=False, dense=dense, ttm=True)
 
 
 def _ep_reshape_ttm(c, key):
